@@ -339,6 +339,11 @@ func genModule(pkgs []*packages.Package, m *Module, byName map[string]*Module, o
 	}
 	if opt.OnlyFunc == "" && !done[m.Name+":lemmas"] {
 		done[m.Name+":lemmas"] = true
+		for _, pp := range pkgs { // the struct sorts the lemmas and axioms may mention
+			if e.Specs[pp.PkgPath] != nil {
+				e.RegisterStructs(pp.PkgPath)
+			}
+		}
 		if len(m.Spec.Lemmas) > 0 {
 			rep, err := verifyLemmas(e, target.PkgPath)
 			if err != nil {
